@@ -111,7 +111,7 @@ func NewContractSet() *ContractSet {
 	return &ContractSet{Funcs: map[string]*Contract{}, SpecFuns: map[string]*SpecFun{}, PkgMode: map[string]map[string]string{}, Globals: map[string]*SType{}}
 }
 
-var reCallLoop = regexp.MustCompile(`^loop\s+([\w.]+#\d+)/(\d+)(?:\s+index\s+(\w+))?\s*:?$`)
+var reCallLoop = regexp.MustCompile(`^loop\s+([\w.]+(?:#\d+)?)/(\d+)(?:\s+index\s+(\w+))?\s*:?$`)
 var reLoop = regexp.MustCompile(`^loop\s+(\d+)(?:\s+index\s+(\w+))?\s*:?$`)
 var reAtBody = regexp.MustCompile(`^at\s+(body|endbody)\s+loop\s+(\d+)\s*:\s*(.*)$`)
 var reAt = regexp.MustCompile(`^at\s+(before|after)\s+call\s+([\w.]+)#(\d+)\s*:\s*(pass\s+)?(.*)$`)
